@@ -112,8 +112,14 @@ func cmdHist(args []string) {
 	transcript := fs.Bool("transcript", false, "keep per-step transcripts (C20 localisation)")
 	samples := fs.Int("samples", 0, "number of sample traces to keep")
 	fs.Parse(args)
-	if err := hist.Init(); err != nil {
-		fatal2("%v", err)
+	// No library call before the first recorded step: the layout guard runs without
+	// its value cross-check (the driver has run `edsim selfcheck`, the same guard
+	// with the cross-check, on this very binary); only a layout that cannot be
+	// established without calling the library falls back to the full guard.
+	if err := hist.InitNoLibrary(); err != nil {
+		if err := hist.Init(); err != nil {
+			fatal2("%v", err)
+		}
 	}
 	env := &hist.Env{Known: loadKnown(*known), Build: buildName(), PkgSnap: pkgSnapHook()}
 	wo := &WorkerOut{Prop: *prop, Build: buildName(), From: *from, To: *to, Stats: hist.NewStats()}
@@ -161,8 +167,10 @@ func cmdReplay(args []string) {
 	known := fs.String("known", "", "known findings file")
 	transcript := fs.Bool("transcript", false, "print the transcript")
 	fs.Parse(args)
-	if err := hist.Init(); err != nil {
-		fatal2("%v", err)
+	if err := hist.InitNoLibrary(); err != nil {
+		if err := hist.Init(); err != nil {
+			fatal2("%v", err)
+		}
 	}
 	b, err := os.ReadFile(*path)
 	if err != nil {
